@@ -238,7 +238,8 @@ def gen(r, tier, i):
             given.append([p, v + 1])
     case['given'] = given
     case['probe_is_step'] = r.random() < 0.4       # the declaring process is a Step (listed under steps)
-    case['conflict'] = {'key': r.choice(['_value', '_units', '_serializer', '_default', '_updater', 'default_units', 'value_units', '_value_dict', '_value_dict_rev', '_value_qarr']),
+    case['conflict'] = {'key': r.choice(['_value', '_units', '_serializer', '_default', '_updater', 'default_units', 'value_units', '_value_dict', '_value_dict_rev', '_value_qarr',
+                                         '_serializer_qdefault', '_serializer_units', '_serializer_units_late']),
                         'same': r.random() < 0.4}
     return case
 
@@ -506,6 +507,11 @@ def conflict_case(V, spec):
     vals = {'_value': (5, 5 if same else 6),
             '_units': (units.fg, units.fg if same else units.s),
             '_serializer': ('vmon_tag_a', 'vmon_tag_a' if same else 'vmon_tag_b'),
+            # serializer conflicts on a variable that also has units (a quantity default, a _units key, or the
+            # units given by one declarer only): the units must not make the explicit serializers negotiable
+            '_serializer_qdefault': ('vmon_tag_a', 'vmon_tag_a' if same else 'vmon_tag_b'),
+            '_serializer_units': ('vmon_tag_a', 'vmon_tag_a' if same else 'vmon_tag_b'),
+            '_serializer_units_late': ('vmon_tag_a', 'vmon_tag_a' if same else 'vmon_tag_b'),
             '_default': (1, 1 if same else 2),
             '_updater': ('set', 'set' if same else 'accumulate'),
             # units given only through the defaults: another unit of the same dimension is compatible (the first
@@ -519,6 +525,8 @@ def conflict_case(V, spec):
             '_value_dict_rev': ({'lower': 0.0, 'upper': 10.0}, {'lower': 0.0, 'upper': 10.0} if same else {'lower': 0.0})}[key]
     if key in ('_value_dict', '_value_dict_rev', '_value_qarr'):
         key_name = '_value'
+    elif key.startswith('_serializer_'):
+        key_name = '_serializer'
     else:
         key_name = key
     _ensure_serializers()
@@ -531,13 +539,23 @@ def conflict_case(V, spec):
     elif key == 'value_units':
         s1 = {'P': {'x': {'_default': vals[0]}}}
         s2 = {'P': {'x': {'_value': vals[1]}}}
+    elif key == '_serializer_qdefault':
+        s1 = {'P': {'x': {'_default': 1.0 * units.fg, '_serializer': vals[0]}}}
+        s2 = {'P': {'x': {'_default': 1.0 * units.fg, '_serializer': vals[1]}}}
+    elif key == '_serializer_units':
+        s1 = {'P': {'x': {'_default': 1.0 * units.fg, '_units': units.fg, '_serializer': vals[0]}}}
+        s2 = {'P': {'x': {'_default': 1.0 * units.fg, '_units': units.fg, '_serializer': vals[1]}}}
+    elif key == '_serializer_units_late':
+        s1 = {'P': {'x': {'_default': 1.0 * units.fg, '_serializer': vals[0]}}}
+        s2 = {'P': {'x': {'_default': 1.0 * units.fg, '_units': units.fg, '_serializer': vals[1]}}}
     try:
         Engine(processes={'a': Probe({'schema': s1}), 'b': Probe({'schema': s2})},
                topology={'a': {'P': ('st',)}, 'b': {'P': ('st',)}}, display_info=False, emitter='null')
         raised = None
     except Exception as ex:
         raised = ex
-    if key in ('_value', '_units', '_serializer', 'default_units', 'value_units', '_value_dict', '_value_dict_rev', '_value_qarr'):
+    if key in ('_value', '_units', '_serializer', 'default_units', 'value_units', '_value_dict', '_value_dict_rev', '_value_qarr',
+               '_serializer_qdefault', '_serializer_units', '_serializer_units_late'):
         if same:
             V.check('compatible_accepted', raised is None, lambda: ('equal %s declarations rejected' % key, repr(raised)[:200]))
         else:
